@@ -57,6 +57,8 @@ def signature(case):
             for (k, so), xs in per.items():
                 if so == "in":
                     yield xs
+                    for x in xs:
+                        yield from (y[1] for y in gv.walk(x) if y[0] in SOLE)
                 else:
                     for x in xs:
                         yield from (y[1] for y in gv.walk(x) if y[0] in SOLE)
